@@ -1,6 +1,8 @@
 SPECIFICATION Spec
 CONSTANTS
   NSeg = 2
+  NPart = 2
+  TokenCap = 0
   Fmp4 = TRUE
   Variant = "ok"
   MaxReq = 5
